@@ -35,7 +35,9 @@ def run_engine(schema, base_url: str, run: dict) -> dict:
     config = EngineConfig(execution=ExecutionConfig(
         phases=[PhaseName.from_str(p) for p in run["phases"]],
         seed=run["seed"], workers_num=run["workers"], hypothesis_settings=settings,
-        generation=GenerationConfig(modes=[GenerationMode(m) for m in run["modes"]]),
+        generation=GenerationConfig(modes=[GenerationMode(m) for m in run["modes"]],
+                                    # a user-supplied collection of methods is a SET (as the CLI builds it): built here, under this process's hash seed
+                                    unexpected_methods=set(run["unexpected_methods"]) if run.get("unexpected_methods") else None),
     ))
     failures = set()
     n = 0
